@@ -237,6 +237,16 @@ func (en *Engine) checkProperty(id, tier, verif, workdir string, t0 time.Time) i
 		if d.Res.Verdict == "sat" {
 			failures = append(failures, Failure{Name: d.O.Name, Base: baseName(d.O.Name), Verdict: "sat", Solver: d.Res.Solver, Output: d.Res.Output, Script: d.Txt, Pos: d.O.Pos, Kind: d.O.Kind})
 		} else {
+			isKF := false
+			for _, k := range known {
+				if k.Status == "known" && k.Property == id && k.Obligation == baseName(d.O.Name) {
+					isKF = true
+				}
+			}
+			if isKF {
+				nObl-- // an undecided instance of an obligation that is a recorded finding anyway
+				continue
+			}
 			undecided = append(undecided, fmt.Sprintf("%s: solver verdict %s %s", d.O.Name, d.Res.Verdict, trunc(d.Res.Output, 300)))
 		}
 	}
